@@ -170,12 +170,14 @@ class extract_visitor(NodeVisitor):
 
     def visit_Delete(self, node):
         # type: (ast.Delete) -> None
-        for name in node.targets:
-            scope = self.flow.scope
-            if (isinstance(name, AstName) and name.id not in scope.globals
-                    and name.id not in scope.nonlocals):
-                # deleting a name makes it local to the scope
-                scope.locals.add(name.id)
+        scope = self.flow.scope
+        for target in node.targets:
+            # del (a, [b, c]) deletes every name of the nest
+            for name, _ in get_indexes_for_target(target, [], []):
+                if (isinstance(name, AstName) and name.id not in scope.globals
+                        and name.id not in scope.nonlocals):
+                    # deleting a name makes it local to the scope
+                    scope.locals.add(name.id)
         self.generic_visit(node)
 
     def visit_If(self, node):
